@@ -595,6 +595,15 @@ def isJsxNode (n : Node) : Bool :=
 def hasDefineComponentCall (n : Node) : Bool :=
   !(collect (fun x => match x with | .mk .call _ (.mk .ident ("defineComponent" :: _) _ :: _) => true | _ => false) n).isEmpty
 
+/-- calls of Vue's own defineComponent (by binding) with the options argument removed: what may NOT change -/
+partial def blankDc (binds : List String) (n : Node) : Node :=
+  match n with
+  | .mk .call ("usr" :: r) [.mk .ident (nm :: b :: ir) iks, .mk .list las args, tp] =>
+    if binds.contains b then
+      .mk .call ("usr" :: r) [.mk .ident (nm :: b :: ir) iks, .mk .list las ((args.take 1 ++ args.drop 2).map (blankDc binds)), blankDc binds tp]
+    else .mk .call ("usr" :: r) [.mk .ident (nm :: b :: ir) iks, .mk .list las (args.map (blankDc binds)), blankDc binds tp]
+  | .mk k as ks => .mk k as (ks.map (blankDc binds))
+
 def oracleC09 (o : Opts) (env : Env) (inN outN : Node) : Verdict :=
   let jsxFree := (collect isJsxNode inN).isEmpty
   let dc := o.resolveType && hasDefineComponentCall inN
@@ -602,7 +611,13 @@ def oracleC09 (o : Opts) (env : Env) (inN outN : Node) : Verdict :=
     match firstDiff inN outN [] with
     | none => .ok
     | some (path, a, b) => .fail "jsx-free-module-changed" s!"at {path}: {showN a} became {showN b}"
-  else if dc then .skip "defineComponent-augmentation"
+  else if dc then
+    if !jsxFree then .skip "defineComponent-augmentation-with-jsx" else
+    -- only the options argument of calls of Vue's own defineComponent may differ
+    let binds := vueDefineBinds inN
+    match firstDiff (blankDc binds inN) (blankDc binds (stripInserted outN)) [] with
+    | none => .ok
+    | some (path, a, b) => .fail "changed-outside-defineComponent-options" s!"at {path}: {showN a} became {showN b}"
   else
     -- skeleton: outside the lowered JSX expressions (and the statements the transform inserted) nothing changes
     let d := denote o env inN
